@@ -57,7 +57,7 @@ def observed_values(layout, obs_row, form):
     return out
 
 
-OBS = {'A': (2, -1, 0, 2, 0, -1), 'B': (1, -2, 3, 0, -3, 1)}   # A lies on the value grid (zero distances occur)
+OBS = {'A': (2, -1, 0, 2, 0, -1), 'B': (1, -2, 3, 0, -3, 1), 'C': (0.5, -1.25, 2.75, 0.1, -0.3, 1.9)}   # A lies on the value grid (zero distances occur)
 
 
 # ---------------------------------------------------------------- metric alphabet
